@@ -315,3 +315,37 @@ def selectusingcontext(h):
         else:
             ctx.oblige('selectusingcontext: a table without data rows yields the header only', z3.And(res.out.len <= 1, S.n <= 1))
     h.explore(body)
+
+
+# ------------------------------------------------------------------------------------------------ facet
+@vc('C13.facet', functions=[SEL + 'facet'], props=['C13'],
+    assumptions=['values() and selecteq() through recording summaries (their own contracts: C12.itervalues, C13.selecteq); two key values occur (the loop body is uniform)'])
+def facet(h):
+    """facet(t, key) maps every value v that occurs under the key to selecteq(t, key, v) over the ORIGINAL table: the parts are
+    selections of t by the same key, one per distinct value, so they partition its rows."""
+    for same in (False, True):
+        def body(ctx, same=same):
+            it = h.interp(ctx)
+            calls = []
+            v1, v2 = sym_cell('v1'), sym_cell('v2')
+            eq12 = smt.py_eq(v1.t, v2.t)
+            ctx.facts.append(z3.And(smt.py_eq(v1.t, v1.t), smt.py_eq(v2.t, v2.t), eq12 == smt.py_eq(v2.t, v1.t)))
+            ctx.assume(eq12 if same else z3.Not(eq12))
+            T = Opaque('table', 't')
+            key = sym_cell('key')
+            it.summaries['petl.util.base.values'] = lambda interp, args, kw, node: (calls.append(('values', list(args), dict(kw))), PyList([v1, v2], 'list'))[1]
+
+            def sel(interp, args, kw, node):
+                o = Opaque('view', 'selecteq#%d' % len(calls))
+                calls.append(('selecteq', list(args), dict(kw), o))
+                return o
+            it.summaries[SEL + 'selecteq'] = sel
+            fct = it.call(closure_of(it, SEL + 'facet'), [T, key], {})
+            vs = [c for c in calls if c[0] == 'values']
+            ss = [c for c in calls if c[0] == 'selecteq']
+            n = 1 if same else 2
+            ok = len(vs) == 1 and vs[0][1][0] is T and vs[0][1][1] is key and len(ss) == n and all(c[1][0] is T and c[1][1] is key and not c[2] for c in ss) \
+                and isinstance(fct, bi.SDict) and len(fct.keys) == n and all(fct.vals[i] is ss[i][3] and fct.keys[i] is ss[i][1][2] for i in range(n)) \
+                and (ss[0][1][2] is v1 or ss[0][1][2] is v2) and (same or {id(ss[0][1][2]), id(ss[1][1][2])} == {id(v1), id(v2)})
+            ctx.oblige('facet: one entry per DISTINCT key value v, holding selecteq(original table, key, v)', z3.BoolVal(bool(ok)))
+        h.explore(body)
